@@ -295,7 +295,7 @@ func (w *lcWorld) probe() {
 	if strings.Join(got, ",") != strings.Join(want, ",") {
 		w.bad("registry.names", "GetBucketNames() = %v, expected %v", got, want)
 	}
-	for _, kind := range []string{"d1", "d2"} {
+	for _, kind := range []string{"d1", "d2", "D1", "d 3"} {
 		for _, n := range lcNames {
 			url := w.url(kind, n)
 			_, exists := w.onDisk[url]
@@ -327,7 +327,9 @@ func (w *lcWorld) cleanup() {
 }
 
 var lcNames = []string{"x", "y"}
-var lcKinds = []string{"mem", "d1", "d2"}
+
+// ("D1" is another directory than "d1": URLs are compared as they are)
+var lcKinds = []string{"mem", "d1", "d2", "D1", "d 3"} // ("d 3": a path that needs escaping in a URL)
 
 func (w *lcWorld) exec(op Op) {
 	w.step++
